@@ -54,6 +54,7 @@ def obligations(prog, src, tier, seed):
                 "run": run_tm, "check": check_tm, "crosscheck": False})
     import os
     import ob_sched
-    depth = int(os.environ.get("SCHED_DEPTH", "4" if tier == "quick" else "6"))
+    # two origins double the issue actions: depth 5 keeps the thorough tier within ~20 minutes
+    depth = int(os.environ.get("SCHED_DEPTH", "4" if tier == "quick" else "5"))
     obs += ob_sched.obligations(prog, src, tier, seed, "C06", n_req=2, depth=depth, classes=('C06',), origins=(10, 20))
     return obs
